@@ -50,6 +50,7 @@ class CallWriteHandler(AbstractWriteHandler):
         self.decompiler.source_map_add_opcode(op.offset)
         assert op.label is not None
         self.decompiler.write_stmnt(f"call @label_{op.label.id};")
+        self.decompiler.labels_jumped_to.add(op.label.id)
         exits = self.start_vertex.out_edges()
         assert 3 > len(exits) > 0, f"A call must have exactly one or two points to jump to, has {len(exits)}."
         # Continue with the op after the call (the edge to the called label has a higher flow level).
